@@ -18,6 +18,7 @@ import (
 	"os"
 	"reflect"
 	"runtime"
+	"runtime/pprof"
 	"sort"
 	"strconv"
 	"strings"
@@ -43,6 +44,7 @@ var (
 	batch  = flag.Int("batch", 0, "")
 	nbatch = flag.Int("nbatch", 1, "")
 	replay = flag.String("replay", "", "")
+	cpuprofile = flag.String("cpuprofile", "", "")
 )
 
 var timeZero time.Time
@@ -63,6 +65,7 @@ type Item struct {
 	ProbePipe string   `json:"probe_pipe,omitempty"`
 	ProbeMeta int      `json:"probe_meta,omitempty"`
 	Via       string   `json:"via,omitempty"`
+	CtxAge    bool     `json:"ctx_age,omitempty"` // the server peer gives every CALL / PUSH context a deadline
 }
 
 var ctxOps = []string{"addmeta", "setmeta", "codec", "pipe", "swap", "method", "status", "panic", "ctxval", "inmeta", "outfields", "sessswap", "bigbody",
@@ -140,7 +143,7 @@ func buildItems(tierName string, seed int64) []Item {
 				if p.HTTP {
 					pipes = []string{"", "z"}
 				}
-				it := Item{Part: "ctx", Class: "ctx", Proto: pn, Ops: ops, ProbePipe: pipes[(si+k+pi)%len(pipes)], ProbeMeta: 2 * ((si + k) % 2), Via: []string{"func", "ctl"}[(si/2+k)%2]}
+				it := Item{Part: "ctx", Class: "ctx", Proto: pn, Ops: ops, ProbePipe: pipes[(si+k+pi)%len(pipes)], ProbeMeta: 2 * ((si + k) % 2), Via: []string{"func", "ctl"}[(si/2+k)%2], CtxAge: (si+k+pi)%3 == 0}
 				add(it)
 			}
 		}
@@ -165,6 +168,15 @@ type expect struct {
 	sessDirty  bool // the session-level swap entry is legitimately visible
 	http       bool
 }
+
+// noDeadline: at the header hook nothing has given this request a deadline yet (no session age is configured)
+func deadlineLeak(rec *probeRec, ctx erpc.ReadCtx) {
+	if d, ok := ctx.Context().Deadline(); ok {
+		rec.leaks = append(rec.leaks, leak{"context-deadline", "seen-at-header-hook", fmt.Sprintf("Context() already carries a deadline (%v from now) before the request was dispatched", time.Until(d).Round(time.Minute))})
+	}
+}
+
+
 
 type probeRec struct {
 	exp       expect
@@ -202,9 +214,15 @@ func noteCtx(p uintptr) {
 func markDirty(p uintptr) {
 	regMu.Lock()
 	dirtied[p] = true
+	if caseDirtied != nil {
+		caseDirtied[p] = true
+	}
 	ctxSeen[p]++
 	regMu.Unlock()
 }
+
+// caseDirtied: contexts used by a dirtying request of the running case.
+var caseDirtied map[uintptr]bool
 
 func kindOfTk(tk string) byte {
 	i := strings.LastIndexByte(tk, '.')
@@ -351,6 +369,7 @@ func (plug) PostReadCallHeader(ctx erpc.ReadCtx) *erpc.Status {
 		rec.inputSize = ctx.Input().Size()
 		noteCtx(rec.ctxPtr)
 		inspectCtx(rec, "seen-at-header-hook", ctx)
+		deadlineLeak(rec, ctx)
 		if b := ctx.Input().Body(); b != nil {
 			rec.leaks = append(rec.leaks, leak{"input-body", "seen-at-header-hook", "input body before binding is " + clip(bodyStr(b))})
 		}
@@ -402,6 +421,7 @@ func (plug) PostReadPushHeader(ctx erpc.ReadCtx) *erpc.Status {
 		rec.ctxPtr = ptrOf(ctx)
 		noteCtx(rec.ctxPtr)
 		inspectCtx(rec, "seen-at-header-hook", ctx)
+		deadlineLeak(rec, ctx)
 		if b := ctx.Input().Body(); b != nil {
 			rec.leaks = append(rec.leaks, leak{"input-body", "seen-at-header-hook", "input body before binding is " + clip(bodyStr(b))})
 		}
@@ -1003,7 +1023,11 @@ func runCtx(it Item) {
 	core.Begin(id, desc)
 	c := &caseRun{it: it, id: id, p: p, mine: map[uintptr]bool{}}
 	pa := erpc.NewPeer(erpc.PeerConfig{})
-	pb := erpc.NewPeer(erpc.PeerConfig{}, plug{})
+	cfgB := erpc.PeerConfig{}
+	if it.CtxAge {
+		cfgB.DefaultContextAge = time.Hour
+	}
+	pb := erpc.NewPeer(cfgB, plug{})
 	defer pa.Close()
 	defer pb.Close()
 	c.routes.dirtyF = pb.RouteCallFunc(DirtyCall)
@@ -1038,10 +1062,7 @@ func runCtx(it Item) {
 		links = append(links, l)
 	}
 	regMu.Lock()
-	snapshot := map[uintptr]bool{}
-	for k := range dirtied {
-		snapshot[k] = true
-	}
+	caseDirtied = c.mine
 	regMu.Unlock()
 	ok := true
 	// 1. the reference: the same requests before any dirtying in this case
@@ -1062,13 +1083,6 @@ func runCtx(it Item) {
 			c.incon = "the dirtying request closed its session"
 		}
 	}
-	regMu.Lock()
-	for k := range dirtied {
-		if !snapshot[k] {
-			c.mine[k] = true
-		}
-	}
-	regMu.Unlock()
 	// 3. the next requests: same session and other session, alternating
 	for n := 0; ok && n < 8; n++ {
 		l := links[n%2]
@@ -1091,7 +1105,7 @@ func runCtx(it Item) {
 	regMu.Unlock()
 	core.Max("handler_contexts_seen_for_2_or_more_requests", int64(reused))
 	core.Add("ctx_probes_on_a_context_dirtied_in_the_same_case", int64(c.hits))
-	sig := fmt.Sprintf("ctx/%s/%s/probe=%s,%d,%s", it.Proto, strings.Join(it.Ops, "+"), it.ProbePipe, it.ProbeMeta, it.Via)
+	sig := fmt.Sprintf("ctx/%s/%s/probe=%s,%d,%s,age=%v", it.Proto, strings.Join(it.Ops, "+"), it.ProbePipe, it.ProbeMeta, it.Via, it.CtxAge)
 	if len(c.leaks) > 0 {
 		seen := map[string]bool{}
 		first := true
@@ -1147,6 +1161,11 @@ func clipLeaks(l []leak) []string {
 
 func main() {
 	flag.Parse()
+	if *cpuprofile != "" {
+		f, _ := os.Create(*cpuprofile)
+		pprof.StartCPUProfile(f)
+		defer pprof.StopCPUProfile()
+	}
 	core.Prop = *prop
 	only := -1
 	if *replay != "" {
